@@ -1,4 +1,91 @@
-(* C01 placeholder, replaced below *)
-From RV Require Import Model.Mapping.
-Theorem C01_placeholder : True. Proof. exact I. Qed.
-Eval cbv in "ASSUMPTIONS-OF C01_placeholder"%string. Print Assumptions C01_placeholder.
+(* C01  Classes merge depth-first, each once, node last.  Statements only; proofs in
+   Proofs/NodeFacts.v about the include walk of Model/Node.v (render_impl / include_loop /
+   node_render).  The walk is a direct recursion: for every include entry (rendered against the
+   parameters merged so far, made absolute) not yet merged, the class is loaded, its own
+   includes are walked first, then it is merged (post-order), and its name is recorded.  The
+   merge order itself is compared on every run with an independent reading of the property
+   through the trace parameter. *)
+From RV Require Import Model.Node Proofs.NamesFacts Proofs.NodeFacts.
+
+(** Each class is merged the first time it is reached and never again: the record of merged
+    classes never holds a name twice. *)
+Theorem C01_each_class_merged_once :
+  forall f fi cfg tbl self c' seen' root',
+    render_impl f fi cfg tbl self [] [] empty_node = Ok (c', seen', root') -> NoDup seen'.
+Proof. exact classes_merged_once. Qed.
+Eval cbv in "ASSUMPTIONS-OF C01_each_class_merged_once"%string. Print Assumptions C01_each_class_merged_once.
+
+(** The record only grows, by classes that are not being loaded at the moment (so a class is
+    recorded after its own includes: post-order). *)
+Theorem C01_walk_extends_record :
+  forall fi cfg tbl f self seen loading root c' seen' root',
+    render_impl f fi cfg tbl self seen loading root = Ok (c', seen', root') ->
+    NoDup seen -> disjoint seen loading ->
+    (exists new, seen' = seen ++ new) /\ NoDup seen' /\ disjoint seen' loading.
+Proof. intros fi cfg tbl f. exact (render_impl_once fi cfg tbl f). Qed.
+Eval cbv in "ASSUMPTIONS-OF C01_walk_extends_record"%string. Print Assumptions C01_walk_extends_record.
+
+(** An already merged class is skipped: the entry contributes nothing. *)
+Theorem C01_merged_class_skipped :
+  forall fi cfg tbl recur self_loc loading c cs seen root name0,
+    include_name fi (n_params root) c = Ok name0 ->
+    mem (abs_class_name self_loc name0) seen = true ->
+    include_loop fi cfg tbl recur self_loc loading (c :: cs) seen root =
+    include_loop fi cfg tbl recur self_loc loading cs seen root.
+Proof. intros * H1 H2. cbn [include_loop]. rewrite H1. cbn [bind]. now rewrite H2. Qed.
+Eval cbv in "ASSUMPTIONS-OF C01_merged_class_skipped"%string. Print Assumptions C01_merged_class_skipped.
+
+(** A class's own includes are walked before the class is merged, and the node's own
+    definitions are merged last (unfolding of the definitions). *)
+Theorem C01_postorder_and_node_last :
+  (forall f fi cfg tbl self seen loading root,
+     render_impl (S f) fi cfg tbl self seen loading root =
+       ('(seen', root') <- include_loop fi cfg tbl (render_impl f fi cfg tbl) (n_loc self) loading (n_classes self) seen root ;;
+        '(self', root'') <- merge_into self root' ;;
+        Ok (self', seen', root''))) /\
+  (forall f fi cfg tbl n meta,
+     node_render f fi cfg tbl n meta =
+       (rc <- as_reclass cfg meta ;;
+        p0 <- m_insert [] (VStr "_reclass_") (VMap rc) ;;
+        '(base1, seen1, _) <- render_impl f fi cfg tbl
+            {| n_apps := r_empty; n_classes := n_classes n; n_params := p0; n_loc := [] |} [] [] empty_node ;;
+        '(n1, _) <- merge_into n base1 ;;
+        render_params fi n1)).
+Proof. split; reflexivity. Qed.
+Eval cbv in "ASSUMPTIONS-OF C01_postorder_and_node_last"%string. Print Assumptions C01_postorder_and_node_last.
+
+(** An include entry that resolves to a class currently being loaded is an include loop: an
+    error naming it. *)
+Theorem C01_include_loop_is_an_error :
+  forall fi cfg tbl recur self_loc loading c cs seen root name0,
+    include_name fi (n_params root) c = Ok name0 ->
+    mem (abs_class_name self_loc name0) seen = false ->
+    mem (abs_class_name self_loc name0) loading = true ->
+    include_loop fi cfg tbl recur self_loc loading (c :: cs) seen root =
+      Err (EIncludeLoop loading (abs_class_name self_loc name0)).
+Proof. exact include_loop_reported. Qed.
+Eval cbv in "ASSUMPTIONS-OF C01_include_loop_is_an_error"%string. Print Assumptions C01_include_loop_is_an_error.
+
+(** The walk returns for every include graph, cyclic ones included: fuel beyond the number of
+    classes is never exhausted (as long as rendering the include names returns). *)
+Theorem C01_walk_always_returns :
+  forall fi cfg tbl,
+    (forall params c, include_name fi params c <> OutOfFuel) ->
+    Forall (fun ce => loc_ok (ce_loc ce)) tbl ->
+    forall self seen root, loc_ok (n_loc self) ->
+      render_impl (S (List.length tbl)) fi cfg tbl self seen [] root <> OutOfFuel.
+Proof. exact include_walk_returns. Qed.
+Eval cbv in "ASSUMPTIONS-OF C01_walk_always_returns"%string. Print Assumptions C01_walk_always_returns.
+
+(** Non-vacuity: a diamond with a reference-bearing include; the class list and the trace show
+    post-order, once, node last. *)
+Example C01_nonvacuous :
+  let cls name incs := {| ce_name := name; ce_loc := [];
+        ce_doc := YMap [(YStr "classes", YSeq (map YStr incs));
+                        (YStr "parameters", YMap [(YStr "trace", YSeq [YStr name]); (YStr "sel", YStr "d")])] |} in
+  let tbl := [cls "a" ["b"; "c"]; cls "b" ["${sel}"]; cls "c" ["d"]; cls "d" []] in
+  let cfg := {| c_ignore := false; c_matches := []; c_compose := false; c_literal_dots := false |} in
+  exists n, node_of_yaml [] (YMap [(YStr "classes", YSeq [YStr "d"; YStr "a"]); (YStr "parameters", YMap [(YStr "trace", YSeq [YStr "NODE"])])]) = Ok n /\
+  exists r, node_render 10 100 cfg tbl n {| m_name := "n"; m_uri := ""; m_parts := ["n"] |} = Ok r /\
+    m_get (VStr "trace") (n_params r) = Some (VSeq [VLit "d"; VLit "b"; VLit "c"; VLit "a"; VLit "NODE"]).
+Proof. cbn zeta. eexists. split; [reflexivity|]. eexists. split; vm_compute; reflexivity. Qed.
